@@ -40,6 +40,7 @@ def table_replay(run, lines, driver_args, module, cfg, label, classify=None, sha
     cases = [l for l in open(allt).read().split("\n") if l.strip()]
     remaining = cases
     reported = 0
+    seen = set()
     t = time.time()
     for _ in range(60):
         cur = os.path.join(wd, "cur.ndjson")
@@ -53,11 +54,16 @@ def table_replay(run, lines, driver_args, module, cfg, label, classify=None, sha
         known = classify(run, bad) if classify else None
         if known:
             run.known_finding(known[0], known[1])
-        elif reported < 5:
+        elif reported >= 5:
+            break
+        elif bad in seen:
+            pass
+        else:
+            seen.add(bad)
             reported += 1
             run.violation("%s: observed case is not allowed by the specification: %s" % (label, bad[:600]),
                           {"kind": "case", "module": module, "cfg": cfg, "driver_args": driver_args, "case": bad, "scenario": json.dumps(json.loads(bad).get("case") or json.loads(bad).get("env"))})
-        remaining = remaining[:r["line"] - 1] + remaining[r["line"]:]
+        remaining = [c for k, c in enumerate(remaining) if k != r["line"] - 1 and c != bad]
     run.traces_validated += len(remaining)
     run.evaluations += len(cases)
     run.nontrivial += sum(1 for c in cases if (nontrivial(c) if nontrivial else True))
